@@ -215,10 +215,34 @@ def predicates_check(call):
     return dict(fails=bool(bad), detail='; '.join(bad[:4]) or 'is_iterable / len0 agree with their contract on %d values' % len(mk))
 
 
+def wrapped_prelude_check(call):
+    """loops.wrapped with positional arguments: the first one is looped over, the other positionals and the keywords are its companions"""
+    from pyg_base import loop
+
+    @loop(list, tuple)
+    def f(a, b=0, c=0):
+        return (a, b, c)
+    cases = [((3,), {}, (3, 0, 0)), (([1, 2],), {}, [(1, 0, 0), (2, 0, 0)]), (([1, 2], 10), {}, [(1, 10, 0), (2, 10, 0)]),
+             (([1, 2], [10, 20]), dict(c=[5, 6]), [(1, 10, 5), (2, 20, 6)]), (((1, [2]), 7, 8), {}, ((1, 7, 8), [(2, 7, 8)])),
+             ((4, [1, 2]), {}, (4, [1, 2], 0)), (([], 1), dict(c=2), [])]
+    bad = []
+    for args, kw, want in cases:
+        try:
+            got = f(*copy.deepcopy(args), **copy.deepcopy(kw))
+        except Exception as e:      # noqa
+            bad.append('f(*%r, **%r) raised %r' % (args, kw, e))
+            continue
+        if not same(got, want):
+            bad.append('f(*%r, **%r) = %r, expected %r' % (args, kw, got, want))
+    return dict(fails=bool(bad), detail='; '.join(bad[:3]) or 'a lifted function called with positional arguments loops over the first one (%d cases)' % len(cases))
+
+
 def replay(call):
     kind = call.get('kind')
     if kind in ('is_iterable', 'len0'):
         return predicates_check(call)
+    if kind == 'wrapped_prelude':
+        return wrapped_prelude_check(call)
     fn = {'as_list': as_list_check, 'as_tuple_known': as_tuple_known, 'lens': lens_check, 'zipper': zipper_check, 'wrapped': wrapped_check,
           'item_by_i': item_by_check, 'item_by_key': item_by_check, 'frame': frame_check}.get(kind)
     if fn is None:
